@@ -492,8 +492,8 @@ pub fn check_formula(text: &str, via_cli: bool) -> Check {
             let reference_table = rsem::table(&parsed.ast, &idents).map_err(|e| v(format!("HARNESS: {:?}", e)))?;
             let scratch = cli::Scratch::new();
             for (flag, f) in [("", 'a'), ("t", 't'), ("f", 'f')] {
-                let dpath = scratch.stale(&format!("d{}.dot", f));
-                let ppath = scratch.stale(&format!("p{}.dot", f));
+                let dpath = scratch.stale(&cli::Scratch::awkward(&format!("d{}.dot", f)));
+                let ppath = scratch.stale(&cli::Scratch::awkward(&format!("p{}.dot", f)));
                 let mut args = vec![
                     format!("--evaluate={}", text),
                     "-d".to_string(),
